@@ -94,7 +94,13 @@ def r1(ctx):
         loops = [n for n in walk_own(fi.node) if isinstance(n, ast.For) and norm(n.iter) == "%s._fields" % owner]
         og = [n for n in walk_own(fi.node) if isinstance(n, ast.Assign) and norm(n.targets[0]) == "origin"]
         ag = [n for n in walk_own(fi.node) if isinstance(n, ast.Assign) and norm(n.targets[0]) == "args"]
-        ok = len(loops) == 1 and len(og) == 1 and norm(og[0].value) == "get_origin(%s.__annotations__[field])" % owner and len(ag) == 1 and norm(ag[0].value) == "get_args(%s.__annotations__[field])" % owner
+        from .common import sym_text
+        from engine.cfg import cfg_of as _cfg_of
+        fcfg = _cfg_of(fi)
+        def _v(n_):
+            nn = fcfg.node_of(n_)
+            return sym_text(fi, n_.value, nn) if nn is not None else norm(n_.value)
+        ok = len(loops) == 1 and len(og) == 1 and _v(og[0]) == "get_origin(%s.__annotations__[field])" % owner and len(ag) == 1 and _v(ag[0]) == "get_args(%s.__annotations__[field])" % owner
         ctx.check(ok, "C15.R1", fi, "%s iterates _fields and dispatches on the field annotation" % fi.name, witness=[norm(x.value) for x in og + ag])
     # fromJson ignores absent keys only
     g = [n for n in walk_own(fj.node) if isinstance(n, ast.If) and norm(n.test) == "field in record"]
@@ -167,22 +173,63 @@ def _basic_table(fi):
     return out
 
 
+def _decision_paths(ctx, fi):
+    """{(frozenset of condition literals), returned expression text} over every path of a loop-free helper: if/elif chains, early
+    returns, flag variables and `(a or b)(x)` callee choices all give the same set"""
+    from .common import sym_paths
+    from engine.cond import CondCtx
+    paths = sym_paths(fi)
+    if paths is None:
+        return None
+    cc = CondCtx(ctx.folder, fi.module, fi.cls)
+    out = set()
+    for (conds, env, ret) in paths:
+        alts = [(list(conds), ret)]
+        # (f or g)(args): the callee is f when f is truthy, else g
+        try:
+            r = ast.parse(ret, mode="eval").body
+        except SyntaxError:
+            r = None
+        if isinstance(r, ast.Call) and isinstance(r.func, ast.BoolOp) and isinstance(r.func.op, ast.Or) and len(r.func.values) == 2:
+            f, g = r.func.values
+            argtxt = ", ".join([ast.unparse(x) for x in r.args] + ["%s=%s" % (k.arg, ast.unparse(k.value)) for k in r.keywords])
+            alts = [(list(conds) + [(ast.unparse(f), True)], "%s(%s)" % (ast.unparse(f), argtxt)),
+                    (list(conds) + [(ast.unparse(f), False)], "%s(%s)" % (ast.unparse(g), argtxt))]
+        for (cs, rt) in alts:
+            lits = []
+            for (t, p) in cs:
+                try:
+                    e = ast.parse(t, mode="eval").body
+                except SyntaxError:
+                    lits.append("%s%s" % ("" if p else "not ", t))
+                    continue
+                lits += [repr(l) for l in cc.literal(e, p)]
+            out.add((frozenset(lits), rt))
+    return out
+
+
 def r4(ctx):
     tb, fb = ctx.fn("%s:_toJsonBasic" % M), ctx.fn("%s:_fromJsonBasic" % M)
-    tt, ft = _basic_table(tb), _basic_table(fb)
-    want_t = [("isinstance(type, SerializableType)", ["value.toJson()"]), ("hasattr(type, 'toJson')", ["type(value).toJson()"]), ("else", ["value"])]
-    ctx.check(tt == want_t, "C15.R4", tb, "_toJsonBasic: Serializable -> value.toJson(); enum-like -> type(value).toJson(); else identity", witness=tt)
-    want_f = [("isinstance(type, SerializableType)", ["inst"]), ("isinstance(type, SerializableEnumType)", ["type(type.fromJson(value))"]),
-              ("hasattr(type, 'fromJson')", ["type.fromJson(value)"]), ("else", ["origin(value)", "type(value)"])]
-    ctx.check(ft == want_f, "C15.R4", fb, "_fromJsonBasic: Serializable -> type.fromJson; enum -> type(type.fromJson(value)); else cast with origin or type", witness=ft)
-    # the Serializable branch of fromJson keeps None and converts everything else
-    inst = [n for n in walk_own(fb.node) if isinstance(n, ast.Assign) and norm(n.targets[0]) == "inst"]
-    vals = sorted(norm(n.value) for n in inst)
-    ctx.check(vals == ["None", "type.fromJson(value)"], "C15.R4", fb, "nested Serializable: None stays None, else type.fromJson(value)", witness=vals)
-    g = [n for n in walk_own(fb.node) if isinstance(n, ast.If) and norm(n.test) == "value is not None"]
-    ctx.check(len(g) == 1, "C15.R4", fb, "nested Serializable conversion is guarded by `value is not None`")
-    # corresponding predicates: first predicate identical, second pair enum-like on both sides
-    ctx.check(tt[0][0] == ft[0][0], "C15.R4", tb, "both helpers test the Serializable case first with the same predicate", witness=[tt[0][0], ft[0][0]])
+    S, E = "isinstance(type, SerializableType)", "isinstance(type, SerializableEnumType)"
+    HT, HF = "hasattr(type, 'toJson')", "hasattr(type, 'fromJson')"
+    G = "get_origin(type)"
+    want_t = {(frozenset([S]), "value.toJson()"), (frozenset(["not " + S, HT]), "type(value).toJson()"), (frozenset(["not " + S, "not " + HT]), "value")}
+    want_f = {(frozenset([S, "value in {None}"]), "None"), (frozenset([S, "value not in {None}"]), "type.fromJson(value)"),
+              (frozenset(["not " + S, E]), "type(type.fromJson(value))"), (frozenset(["not " + S, "not " + E, HF]), "type.fromJson(value)"),
+              (frozenset(["not " + S, "not " + E, "not " + HF, G]), "get_origin(type)(value)"),
+              (frozenset(["not " + S, "not " + E, "not " + HF, "not " + G]), "type(value)")}
+    tt, ft = _decision_paths(ctx, tb), _decision_paths(ctx, fb)
+
+    def show(x):
+        return sorted((sorted(c), r) for (c, r) in x) if x is not None else None
+    ctx.check(tt == want_t, "C15.R4", tb, "_toJsonBasic: Serializable -> value.toJson(); enum-like -> type(value).toJson(); else identity", witness=show(tt))
+    ctx.check(ft == want_f, "C15.R4", fb, "_fromJsonBasic: Serializable -> type.fromJson; enum -> type(type.fromJson(value)); else cast with origin or type", witness=show(ft))
+    # the Serializable branch of fromJson keeps None and converts everything else (two of the paths above)
+    sub = {(c, r) for (c, r) in (ft or set()) if S in c}
+    ctx.check(sub == {x for x in want_f if S in x[0]}, "C15.R4", fb, "nested Serializable: None stays None, else type.fromJson(value)", witness=show(sub))
+    # corresponding predicates: both helpers decide the Serializable case first, with the same predicate
+    ctx.check(tt is not None and ft is not None and any(c == frozenset([S]) for (c, r) in tt) and all(S in c or ("not " + S) in c for (c, r) in ft), "C15.R4", tb,
+              "both helpers test the Serializable case first with the same predicate")
 
 
 def r5(ctx):
